@@ -251,7 +251,6 @@ func runC07(c *Ctx) {
 
 	c.errPropagates("R07.10", p.Method(pkgCtrlState, "StateAdapter", "AddFinalizer"), 1, "(*pkg/state/owned.State).AddFinalizer")
 
-
 	// ---------- error discipline (E8)
 	errDisciplineFor(c, "C07")
 
